@@ -133,11 +133,20 @@ package exif2
 //@   ensures [C02] r1 == nil ==> pos(ir.reader) == old(pos(ir.reader)) + 4
 //@   ensures [C02] pos(ir.reader) >= old(pos(ir.reader))
 
+// C03 forward layout: the pending out-of-line tags are kept ordered by value offset, so that a forward-only reader meets
+// every value in the order in which the values lie in the block.
+//@ spec sortedTags(b) = forall k int :: 0 <= k && k+1 < int(b.len) ==> b.tag[k].ValueOffset <= b.tag[k+1].ValueOffset
+
 //@ func (*ifdReader).addTagBuffer
-//@   props C01 C02
+//@   props C01 C02 C03
 //@   requires irOK(ir)
+//@   requires [C03] sortedTags(ir.buffer)
 //@   modifies ir.buffer.len, ir.buffer.tag
 //@   ensures ir.buffer.len <= 84 && ir.buffer.len >= old(ir.buffer.len) && ir.buffer.len <= old(ir.buffer.len) + 1
+//@   ensures [C03] sortedTags(ir.buffer)
+//@   loop 0 invariant 0 <= i && i <= int(b.len) && b == ir.buffer && b.len == old(ir.buffer.len)
+//@   loop 0 invariant forall k int :: i <= k && k < int(b.len) ==> t.ValueOffset <= b.tag[k].ValueOffset
+//@   loop 0 invariant sortedTags(b)
 
 // Value decoders: each reads at most the value of the current pending tag; none changes the pending-tag buffer.
 
